@@ -3,7 +3,7 @@ R-COUPLED-IMPORT-ORDER, R-REORG-INV, R-LOCALS-OWNER, R-ADDLOCAL, R-SWAP (name-al
 import os
 import re
 
-from vlib.facts import walk, peel, place_path, CheckError, REPO, lit_int, uncond_before, every_iteration, path_to
+from vlib.facts import walk, peel, place_path, CheckError, REPO, lit_int, uncond_before, every_iteration, path_to, binding_site
 from vlib.paths import paths, normal_paths
 from vlib.report import RuleResult
 from rules.nopanic import snippet
@@ -330,6 +330,19 @@ def counter_inv(F):
     if not has_assert:
         raise CheckError("anchor gone: finish_module_with_tag no longer asserts the function-count invariant (re-read the clause by hand)")
     memo = {}
+    # functions from which ModuleImports::add is reachable through parameters (add itself, Module::add_import, helpers)
+    imp_add = [f for f in F.fns if f["name"] == "add" and (f.get("self_adt") or "").endswith("::ModuleImports")]
+    reach_add = {f["path"] for f in imp_add}
+    grew = True
+    while grew:
+        grew = False
+        for f in F.fns:
+            if f.get("body") is None or f["path"] in reach_add:
+                continue
+            takes_kind = any("TypeRef" in (pm.get("ty") or "") or "module_imports::Import" in (pm.get("ty") or "") for pm in f.get("params", []))
+            if takes_kind and any(x.get("k") in ("Call", "MethodCall") and (x.get("inst") or x.get("callee") or "") in reach_add for x in walk(f["body"])):
+                reach_add.add(f["path"])
+                grew = True
 
     def summary(fn, depth=0):
         p = fn["path"]
@@ -358,8 +371,9 @@ def counter_inv(F):
                 t = F.by_path.get(callee)
                 if t and len(t) == 1 and t[0] is not fn:
                     nm = t[0]["name"]
-                    # Module::add_import / ModuleImports::add: the counter moved depends on the Import's kind
-                    if nm in ("add_import", "add") and (t[0].get("self_adt") or "").endswith(("::Module", "::ModuleImports")) and "Import" in "".join(p2["ty"] for p2 in t[0]["params"]):
+                    # anything that (transitively) reaches ModuleImports::add moves num_funcs iff the import it is given
+                    # is a function import: the kind is read off the TypeRef constructor at the call site
+                    if t[0]["path"] in reach_add:
                         kind = None
                         for a in n["args"]:
                             for x in walk(a):
@@ -369,9 +383,7 @@ def counter_inv(F):
                             return [("nf", 1)]
                         if kind is not None:
                             return None
-                        if nm == "add":
-                            return None  # generic forwarder (Module::add_import): judged at its callers
-                        return ["?add_import"]
+                        return None  # generic forwarder (kind decided by its own caller): judged at the callers
                     s = summary(t[0], depth + 1)
                     if s != {(0, 0, 0)}:
                         return [("sum", tuple(sorted(s)))]
@@ -400,7 +412,7 @@ def counter_inv(F):
         sa = fn.get("self_adt") or ""
         if not sa.endswith(("::Module", "::FunctionBuilder")):
             continue
-        if fn["name"] in ("parse_internal", "parse", "add_import"):
+        if fn["name"] in ("parse_internal", "parse") or fn["path"] in reach_add:
             continue
         s = summary(fn)
         if s == {(0, 0, 0)}:
@@ -780,6 +792,16 @@ def locals_owner(F):
                 return "NUM+1" if one else "NUM+?"
             if pp.startswith("locals"):
                 return "RUN+1" if one else "RUN+?"
+            # `*count += 1` where `count` was bound by a pattern on locals.last_mut() / get_mut(..) / iter_mut()
+            root_ = n["lhs"]
+            while isinstance(root_, dict) and root_.get("k") in ("Unary", "Field", "Index"):
+                root_ = root_.get("a") or root_.get("base")
+            if isinstance(root_, dict) and root_.get("k") == "Path" and root_.get("res", {}).get("r") == "local":
+                _pat, scr_, _k = binding_site(al["body"], root_["res"]["hid"])
+                sc_ = peel(scr_) if scr_ is not None else None
+                if sc_ is not None and sc_.get("k") == "MethodCall" and sc_.get("method") == "last_mut" \
+                        and peel(sc_["recv"]).get("k") == "Path" and peel(sc_["recv"]).get("res", {}).get("name") == "locals":
+                    return "RUN+1" if one else "RUN+?"
         if n.get("k") == "MethodCall" and n["method"] == "push" and (place_path(n["recv"]) or "") == "locals":
             a = peel(n["args"][0])
             if a.get("k") == "Tup" and peel(a["elems"][0]).get("k") == "Lit" and lit_int(peel(a["elems"][0])["lit"]) == 1:
